@@ -1,5 +1,5 @@
 (* C14 - Hashing is correct, chunking-independent, and a faithful pass-through.
-   Only statements here; proofs in Proofs/HashStreamProofs.v and Proofs/HashStreamProofs2.v.
+   Only statements here; proofs in Proofs/HashStreamProofs.v, HashStreamProofs2.v, HashStreamProofs3.v.
 
    The model: Gen/Hash.v is GENERATED from the current source on every run (istextblock, dos2unix,
    HashStreamFile.read, Dos2UnixHashStreamFile.read); Base/PyStream.v is the environment (a file
@@ -22,7 +22,7 @@
    * C14_text_ratio uses the kernel's primitive floats (evaluated by vm_compute only; no
      float axiom is used). *)
 From Coq Require Import NArith ZArith List Bool.
-From DvcData Require Import Base.Val Base.PyBase Base.PyStream Gen.Hash Model.HashStream Proofs.HashStreamProofs Proofs.HashStreamProofs2.
+From DvcData Require Import Base.Val Base.PyBase Base.PyStream Gen.Hash Model.HashStream Proofs.HashStreamProofs Proofs.HashStreamProofs2 Proofs.HashStreamProofs3.
 Import ListNotations.
 Open Scope N_scope.
 
@@ -142,6 +142,25 @@ Theorem C14_crlf_lf : forall u n,
     concat c1 = unix2dos u /\ concat c2 = u.
 Proof. exact crlf_lf. Qed.
 Print Assumptions C14_crlf_lf.
+
+(* LF -> CR LF keeps a text a text (the sniffing window of the CRLF variant is still text), so
+   the theorem can be stated on the LF text alone: a text without CR LF that fits, as CRLF
+   variant, in one read has one digest in both variants, H u *)
+Theorem C14_text_stable : forall u,
+  istextblock (firstn 512 u) = true -> istextblock (firstn 512 (unix2dos u)) = true.
+Proof. exact text_window_stable. Qed.
+Print Assumptions C14_text_stable.
+
+Theorem C14_crlf_lf_text : forall u n,
+  no_crlf u = true -> istextblock (firstn 512 u) = true ->
+  (512 <= n)%Z -> (Z.of_nat (length (unix2dos u)) <= n)%Z ->
+  exists s1 c1 s2 c2,
+    fobj_md5 s_md5_dos2unix n (unix2dos u) [] = DriveOk s1 c1 /\
+    fobj_md5 s_md5_dos2unix n u [] = DriveOk s2 c2 /\
+    hs_hasher s1 = u /\ hs_hasher s2 = u /\
+    concat c1 = unix2dos u /\ concat c2 = u.
+Proof. exact crlf_lf_text. Qed.
+Print Assumptions C14_crlf_lf_text.
 
 (* binary content that fits in one read is hashed untouched *)
 Theorem C14_binary_partial : forall b n,
